@@ -25,6 +25,7 @@ type Gen struct {
 	ssaPkgs   map[string]*ssa.Package
 	loadErrs  []string
 	srcCache  map[string][]string
+	curProp   string
 }
 
 // contractDirs finds package directories in the repo that carry a contracts_verif.go file.
